@@ -454,15 +454,17 @@ func runScanLimit(c *core.Ctx) {
 	c.CountFuncs(1)
 	// the Set into the result tree inside the loop over the retained set
 	var set ssa.CallInstruction
-	for _, ci := range calls(scan) {
-		if !treemapCall(ci, "Set") || !an.InLoop(ci.Block()) {
-			continue
+	var setOcc an.Occ
+	an.Region(scan, nil, func(o an.Occ) {
+		ci, isCI := o.In.(ssa.CallInstruction)
+		if !isCI || !treemapCall(ci, "Set") || !an.InLoop(ci.Block()) {
+			return
 		}
 		// the scan path's insertion: its loop iterates the retained set (an iterator
 		// of recv.evsCreatedAt is created on the way)
 		h := an.LoopHeaderOf(ci.Block())
 		if h == nil {
-			continue
+			return
 		}
 		loop := an.LoopBlocks(h)
 		for _, pre := range h.Preds {
@@ -470,18 +472,19 @@ func runScanLimit(c *core.Ctx) {
 				continue
 			}
 			for _, in := range pre.Instrs {
-				if c2, ok := in.(ssa.CallInstruction); ok && treemapCall(c2, "Iterator") && an.PathOf(c2.Common().Args[0]) == "recv.evsCreatedAt" {
-					set = ci
+				if c2, ok := in.(ssa.CallInstruction); ok && treemapCall(c2, "Iterator") && o.Path(c2.Common().Args[0]) == "recv.evsCreatedAt" {
+					set, setOcc = ci, o
 				}
 			}
 		}
-	}
+	})
 	if set == nil {
 		c.Unknown(nil, fname(c, scan), "scan-loop", P.Pos(scan.Pos()), "scan loop over the retained set not recognised")
 		return
 	}
+	host := set.Parent()
 	var lmCall, doneCall *ssa.Call
-	for _, g := range an.Guards(scan, set.Block()) {
+	for _, g := range an.Guards(host, set.Block()) {
 		v, pol := stripNot(g.V, g.True)
 		call, ok := v.(*ssa.Call)
 		if !ok {
@@ -503,8 +506,8 @@ func runScanLimit(c *core.Ctx) {
 	why := fmt.Sprintf("LimitMatch guard: %v, Done()==false guard before it: %v", lmCall != nil, doneCall != nil)
 	if good {
 		// matcher built from the whole filter of this iteration; matched event is the tree element
-		mp := an.PathOf(lmCall.Call.Args[0])
-		good = strings.Contains(mp, "NewReqFilterMatcher(p:"+scan.Params[1].Name()+"[*])") && an.PathOf(doneCall.Call.Args[0]) == mp
+		mp := setOcc.Path(lmCall.Call.Args[0])
+		good = strings.Contains(mp, "NewReqFilterMatcher(p:"+scan.Params[1].Name()+"[*])") && setOcc.Path(doneCall.Call.Args[0]) == mp
 		why += "; matcher ← " + clip(mp, 80)
 	}
 	c.Check(good, nil, fname(c, scan), "scan-loop", P.Pos(set.Pos()), "an event enters the result only if Done() was false and LimitMatch (counting) accepted it, with a matcher built from the whole filter", "scan path does not respect the filter's limit: "+why)
